@@ -61,6 +61,11 @@ Definition mention_ok (s : ssite) : bool :=
      static        -> ImmInit    immutable `static` of plain data, const initialiser (`static mut` and statics whose type
                                  mentions an interior-mutability wrapper are the separate kinds static_mut / static_interior)
      ptr_identity  -> AddrEq     Arc::ptr_eq / ptr::eq: equality of addresses, never their order or value
+     ptr_key       -> AddrEq     `set.insert(Arc::as_ptr(x))` / `HashSet<*const T>` (fix 37642ef, Tree's collectors): an address
+                                 that is only the key of a hash set; membership is equality of addresses, the value of the address
+                                 picks a bucket only, and every hash container is confined to the lookup-only fragment
+                                 (hash_sites_lookup_only: no iteration, no order); the scanner gives this kind only to these two
+                                 shapes, and the text is re-checked here
      Rc            -> CallLocal  only in resvg/src/filter/mod.rs (filter::Image; Rc is !Send, created and dropped in one `apply`)
      fs            -> ExtInput   only usvg's default_string_resolver: the file an <image href> names is part of the input
    Everything else the scanner knows (static_mut, static_interior, thread_local, Cell, RefCell, Mutex, RwLock, Atomic, Lazy,
@@ -68,6 +73,7 @@ Definition mention_ok (s : ssite) : bool :=
 Definition cell_class (s : ssite) : cls :=
   if String.eqb (ss_kind s) "static" then ImmInit
   else if String.eqb (ss_kind s) "ptr_identity" then AddrEq
+  else if String.eqb (ss_kind s) "ptr_key" && (has_sub "insert(Arc::as_ptr(" (ss_text s) || has_sub "HashSet<*const " (ss_text s)) then AddrEq
   else if String.eqb (ss_kind s) "Rc" && String.eqb (ss_file s) "crates/resvg/src/filter/mod.rs" then CallLocal
   else if String.eqb (ss_kind s) "fs" && String.eqb (ss_file s) "crates/usvg/src/parser/image.rs"
           && String.eqb (ss_fn s) "default_string_resolver" then ExtInput
